@@ -1039,7 +1039,7 @@ get_attr_blob(kdump_ctx_t *ctx, struct attr_data *attr,
 		attr = attr->parent;
 
 	raw = lookup_attr_child(attr->parent, tmpl);
-	if (!raw)
+	if (!raw || !attr_isset(raw))
 		return set_error(ctx, KDUMP_ERR_NODATA,
 				 "%s raw attribute not found", tmpl->key);
 
